@@ -127,6 +127,16 @@ class Url:
         return cls(username=username, password=password, hostname=host, port=port)
 
     @staticmethod
+    def _port(raw: bytes) -> int:
+        """Port numbers are 16 bit.  Anything beyond is not a port and
+        must not reach the resolver, which silently reduces it modulo 65536
+        i.e. ``example.org:65616`` would end up connecting to port 80."""
+        port = int(raw)
+        if not 0 <= port <= 65535:
+            raise HttpProtocolException('Invalid port %r' % raw)
+        return port
+
+    @staticmethod
     def _parse(raw: bytes) -> Tuple[
             Optional[bytes],
             Optional[bytes],
@@ -145,12 +155,12 @@ class Url:
             return username, password, parts[0], None
         # Host and port found
         if num_parts == 2:
-            return username, password, COLON.join(parts[:-1]), int(parts[-1])
+            return username, password, COLON.join(parts[:-1]), Url._port(parts[-1])
         # More than a single COLON i.e. IPv6 scenario
         try:
             # Try to resolve last part as an int port
             last_token = parts[-1].split(COLON)
-            port = int(last_token[-1])
+            port = Url._port(last_token[-1])
             host = COLON.join(parts[:-1]) + COLON + \
                 COLON.join(last_token[:-1])
         except ValueError:
